@@ -129,9 +129,11 @@ def insert_loops(item, body):
 def apply_inserts(item, body):
     # positions are resolved on the text before any insertion so that `#n` ordinals refer to the real body
     todo = []
-    for (where, anchor, lines, nth) in item.inserts:
+    for (where, anchor, lines, nth, optional) in item.inserts:
         rx = re.compile(lit_to_re(anchor), re.S)
         ms = list(rx.finditer(body))
+        if optional and not ms:
+            continue
         if nth is None and len(ms) != 1:
             raise LostAnchor('item %s: insert anchor %r matched %d times' % (item.id, anchor, len(ms)))
         if nth is not None and (len(ms) < abs(nth) or nth == 0):
@@ -253,12 +255,16 @@ class Unit:
                         blk.append(lines[i])
                         i += 1
                     item.loops[ordn] = blk
-                elif word == 'ins':
+                elif word in ('ins', 'ins?'):
                     where, _, r = rest.partition(' ')
+                    if word == 'ins?':
+                        where += '?'
                     if where == 'start':
                         r = '⟦{⟧'
                     m = re.match(r'^⟦(.*)⟧\s*$', r.strip(), re.S)
                     nth = None
+                    optional = where.endswith('?')
+                    where = where.rstrip('?')
                     if '#' in where:
                         where, nth = where.split('#')
                         nth = int(nth)
@@ -271,7 +277,7 @@ class Unit:
                     while not lines[i].strip().startswith('//@ endins'):
                         blk.append(lines[i])
                         i += 1
-                    item.inserts.append((where, m.group(1), blk, nth))
+                    item.inserts.append((where, m.group(1), blk, nth, optional))
                 elif word == 'body':
                     self.items.append(item)
                     self.chunks.append(('item', item, item.lineno))
